@@ -454,3 +454,351 @@ Section ImplicitFull.
     - intros k. cbn [implicit_inverse_full s_vort state_minus_scaled implicit_terms_full]. unfold zero3. ring.
   Qed.
 End ImplicitFull.
+
+(** ** out-of-range behaviour of the concrete operators (used to reduce the "for all coefficients"
+    premises of the concrete-operator theorems to the finitely many in-range coefficients) *)
+Section OutOfRange.
+  Context {F : Type} {o : Ops F} {Fc : FieldC o}.
+  Add Field FFpo : (field_c : FieldTh o).
+  Variable g : @HGrid F.
+
+  Lemma clip_c_out (x : Wi -> F) a l : (hL g - 1 <= l)%nat -> clip_c g x (a, l) = 0.
+  Proof.
+    intros Hl. unfold clip_c, unc, clipm, Deriv.clip, cur. cbn [fst snd].
+    rewrite Nat.sub_diag. destruct (Nat.ltb_spec l (hL g - (1 + 0))); [lia|ring].
+  Qed.
+  Lemma toM_c_out (z : Wi -> F) a l : (hR g <= a)%nat -> toM_c g z (a, l) = 0.
+  Proof. intros Ha. unfold toM_c, unc, to_modal. cbn [fst snd]. now apply analysis_out_row. Qed.
+  Lemma lap_c_zero (x : Wi -> F) w : x w = 0 -> lap_c g x w = 0.
+  Proof.
+    destruct w as [a l]. intros H. unfold lap_c, unc, lapm, Deriv.laplacian, cur. cbn [fst snd]. rewrite H. ring.
+  Qed.
+
+  Lemma shift1_zero n off k : shift1 n off (fun _ : nat => (0 : F)) k = 0.
+  Proof.
+    unfold shift1. destruct (Z.leb (Z.of_nat n) (Z.abs off)); [reflexivity|].
+    destruct (Z.ltb 0 off).
+    - destruct (Nat.ltb k (Z.to_nat off)); reflexivity.
+    - destruct (Nat.ltb (k + Z.to_nat (- off)) n); reflexivity.
+  Qed.
+  Lemma D2_zero_row L C (a b x : nat -> nat -> F) i l : (forall l', x i l' = 0) -> D2 L C a b x i l = 0.
+  Proof.
+    intros H. unfold D2, shift_cols.
+    rewrite (shift1_ext_all C d2_om (fun l0 => d2_wm (lit (laxis L l0)) (a i l0) * x i l0) (fun _ => 0)) by (intros; rewrite H; ring).
+    rewrite (shift1_ext_all C d2_op (fun l0 => d2_wp (lit (laxis L l0)) (b i l0) * x i l0) (fun _ => 0)) by (intros; rewrite H; ring).
+    rewrite !shift1_zero. ring.
+  Qed.
+  (** rows beyond the R = 2M-1 (odd) rows: the longitude derivative of an array that vanishes there vanishes *)
+  Lemma dlon_ref_out R (x : nat -> nat -> F) i l :
+    (R mod 2 = 1)%nat -> (R <= i)%nat -> (forall i' l', (R <= i')%nat -> x i' l' = 0) -> dlon_ref R x i l = 0.
+  Proof.
+    intros Hodd Hi Hx. unfold dlon_ref, shift_rows, dref_sel.
+    destruct (dref_cond i) eqn:E.
+    - unfold dref_down_off. rewrite shift1_m1. destruct (Nat.ltb_spec (S i) R); [lia|ring].
+    - assert (Hne : i <> R).
+      { intros ->. unfold dref_cond in E. rewrite Hodd in E. discriminate E. }
+      unfold dref_up_off, shift1. destruct (Z.leb (Z.of_nat R) (Z.abs 1)); [ring|].
+      change (Z.ltb 0 1) with true. cbv iota. change (Z.to_nat 1) with 1%nat.
+      destruct (Nat.ltb i 1); [ring|]. rewrite Hx by lia. ring.
+  Qed.
+
+  Lemma divc_c_out (x y : Wi -> F) a l :
+    (hR g mod 2 = 1)%nat -> (hR g <= a)%nat ->
+    (forall a' l', (hR g <= a')%nat -> x (a', l') = 0) -> (forall a' l', (hR g <= a')%nat -> y (a', l') = 0) ->
+    divc_c g x y (a, l) = 0.
+  Proof.
+    intros Hodd Ha Hx Hy. unfold divc_c, unc, divm, div_cos_lat, clip_if, d_dlon. cbn [fst snd].
+    rewrite dlon_ref_out by (try assumption; intros; now apply Hx).
+    rewrite D2_zero_row by (intros; now apply Hy).
+    rewrite fdiv_mul. ring.
+  Qed.
+  Lemma curlc_c_out (x y : Wi -> F) a l :
+    (hR g mod 2 = 1)%nat -> (hR g <= a)%nat ->
+    (forall a' l', (hR g <= a')%nat -> x (a', l') = 0) -> (forall a' l', (hR g <= a')%nat -> y (a', l') = 0) ->
+    curlc_c g x y (a, l) = 0.
+  Proof.
+    intros Hodd Ha Hx Hy. unfold curlc_c, unc, curlm, curl_cos_lat, clip_if, d_dlon. cbn [fst snd].
+    rewrite dlon_ref_out by (try assumption; intros; now apply Hy).
+    rewrite D2_zero_row by (intros; now apply Hx).
+    rewrite fdiv_mul. ring.
+  Qed.
+  (** hence on transformed nodal fields *)
+  Lemma divc_toM_out (z1 z2 : Wi -> F) a l :
+    (hR g mod 2 = 1)%nat -> (hR g <= a)%nat -> divc_c g (toM_c g z1) (toM_c g z2) (a, l) = 0.
+  Proof. intros Hodd Ha. apply divc_c_out; try assumption; intros; now apply toM_c_out. Qed.
+  Lemma curlc_toM_out (z1 z2 : Wi -> F) a l :
+    (hR g mod 2 = 1)%nat -> (hR g <= a)%nat -> curlc_c g (toM_c g z1) (toM_c g z2) (a, l) = 0.
+  Proof. intros Hodd Ha. apply curlc_c_out; try assumption; intros; now apply toM_c_out. Qed.
+  Lemma clip_c_zero (x : Wi -> F) w : x w = 0 -> clip_c g x w = 0.
+  Proof.
+    destruct w as [a l]. intros H. unfold clip_c, unc, clipm, Deriv.clip, cur. cbn [fst snd]. rewrite H. ring.
+  Qed.
+End OutOfRange.
+
+(** ** the last lift: two EXECUTED states with the same absolute temperature.
+    Range-restricted extensionality of the assembled operators; the only use of an axiom is
+    [functional_extensionality] to identify two nodal-column RECORDS whose level functions agree pointwise. *)
+From Coq Require Import FunctionalExtensionality.
+
+Section Lift.
+  Context {F : Type} {o : Ops F} {Fc : FieldC o}.
+  Add Field FFpx : (field_c : FieldTh o).
+
+  Lemma ncol_ext (x y : @NCol F) :
+    (forall k, n_u x k = n_u y k) -> (forall k, n_v x k = n_v y k) -> (forall k, n_vort x k = n_vort y k) ->
+    (forall k, n_div x k = n_div y k) -> (forall k, n_temp x k = n_temp y k) ->
+    n_gx x = n_gx y -> n_gy x = n_gy y -> n_sec2 x = n_sec2 y -> n_f x = n_f y -> x = y.
+  Proof.
+    destruct x, y. cbn. intros Hu Hv Hw Hd Ht -> -> -> ->.
+    apply functional_extensionality in Hu. apply functional_extensionality in Hv. apply functional_extensionality in Hw.
+    apply functional_extensionality in Hd. apply functional_extensionality in Ht. now subst.
+  Qed.
+
+  Lemma memo3_out_k n m q (x : nat -> nat -> nat -> F) k a j : (n <= k)%nat -> memo3 n m q x k a j = 0.
+  Proof.
+    intros Hk. unfold memo3.
+    rewrite (nth_overflow (map (fun k0 => map (fun a0 => map (x k0 a0) (seq 0 q)) (seq 0 m)) (seq 0 n)) [])
+      by (rewrite map_length, seq_length; exact Hk).
+    destruct a; destruct j; reflexivity.
+  Qed.
+
+  Lemma synth_zero K L J f p i j : synth K L J f p (fun _ _ => (0 : F)) i j = 0.
+  Proof.
+    unfold synth, inv_fourier. apply sumn_zero. intros a Ha.
+    destruct (Nat.lt_ge_cases j J) as [Hj|Hj].
+    - rewrite sh_memo2_ok by assumption. unfold inv_legendre.
+      rewrite (sumn_zero L (fun l => p a j l * 0)) by (intros; ring). ring.
+    - unfold sh_memo2. rewrite (nth_map_seq (fun a0 => map (inv_legendre L p (fun _ _ => 0) a0) (seq 0 J)) K a []) by assumption.
+      rewrite nth_overflow by (rewrite map_length, seq_length; exact Hj). ring.
+  Qed.
+
+  Variable g : @HGrid F.
+  Let R := hR g.
+  Let L := hL g.
+  Let I := hI g.
+  Let J := hJ g.
+
+  (** range-restricted extensionality of the concrete operators *)
+  Lemma toM_c_ext_range (z z' : Wi -> F) a l :
+    (a < R)%nat -> (forall i j, (i < I)%nat -> (j < J)%nat -> z (i, j) = z' (i, j)) -> toM_c g z (a, l) = toM_c g z' (a, l).
+  Proof. intros Ha H. unfold toM_c, unc, to_modal, cur. cbn [fst snd]. apply analysis_ext; assumption. Qed.
+  Lemma divc_c_ext_range (x y x' y' : Wi -> F) a l :
+    (a < R)%nat -> (l < L)%nat ->
+    (forall a l, (a < R)%nat -> (l < L)%nat -> x (a, l) = x' (a, l)) ->
+    (forall a l, (a < R)%nat -> (l < L)%nat -> y (a, l) = y' (a, l)) ->
+    divc_c g x y (a, l) = divc_c g x' y' (a, l).
+  Proof. intros Ha Hl Hx Hy. unfold divc_c, unc. cbn [fst snd]. apply divm_ext_range; assumption. Qed.
+  Lemma curlc_c_ext_range (x y x' y' : Wi -> F) a l :
+    (a < R)%nat -> (l < L)%nat ->
+    (forall a l, (a < R)%nat -> (l < L)%nat -> x (a, l) = x' (a, l)) ->
+    (forall a l, (a < R)%nat -> (l < L)%nat -> y (a, l) = y' (a, l)) ->
+    curlc_c g x y (a, l) = curlc_c g x' y' (a, l).
+  Proof. intros Ha Hl Hx Hy. unfold curlc_c, unc. cbn [fst snd]. apply curlm_ext_range; assumption. Qed.
+  Lemma clip_c_ext_pt (x x' : Wi -> F) w : x w = x' w -> clip_c g x w = clip_c g x' w.
+  Proof. destruct w. intros H. unfold clip_c, unc, clipm, Deriv.clip, cur. cbn [fst snd]. now rewrite H. Qed.
+
+  Variable c : @PEcfg F.
+  Variable grav : F.
+
+  (** the assembled explicit operators read the nodal columns on the node range only *)
+  Section AssemblyExt.
+    Variables X X' : Wi -> @NCol F.
+    Hypothesis HX : forall i j, (i < I)%nat -> (j < J)%nat -> X (i, j) = X' (i, j).
+    Lemma temp_assembly_ext r a l : (a < R)%nat -> (l < L)%nat ->
+      temp_tendency_explicit Wi Wi (toM_c g) (divc_c g) (clip_c g) c X r (a, l)
+      = temp_tendency_explicit Wi Wi (toM_c g) (divc_c g) (clip_c g) c X' r (a, l).
+    Proof.
+      intros Ha Hl. unfold temp_tendency_explicit. apply clip_c_ext_pt. f_equal.
+      - apply toM_c_ext_range; [assumption|]. intros i j Hi Hj. now rewrite (HX i j Hi Hj).
+      - f_equal. apply divc_c_ext_range; try assumption; intros a' l' Ha' Hl';
+          (apply toM_c_ext_range; [assumption|]; intros i j Hi Hj; now rewrite (HX i j Hi Hj)).
+    Qed.
+    Lemma div_assembly_ext (orog : Wi -> F) r a l : (a < R)%nat -> (l < L)%nat ->
+      div_tendency_explicit Wi Wi (toM_c g) (divc_c g) (lap_c g) (clip_c g) c grav X (fun p => rt_dry c (X p)) orog (fun _ => 0) r (a, l)
+      = div_tendency_explicit Wi Wi (toM_c g) (divc_c g) (lap_c g) (clip_c g) c grav X' (fun p => rt_dry c (X' p)) orog (fun _ => 0) r (a, l).
+    Proof.
+      intros Ha Hl. unfold div_tendency_explicit. apply clip_c_ext_pt. f_equal. f_equal. f_equal.
+      - f_equal. apply divc_c_ext_range; try assumption; intros a' l' Ha' Hl';
+          (apply toM_c_ext_range; [assumption|]; intros i j Hi Hj; now rewrite (HX i j Hi Hj)).
+      - f_equal. unfold lap_c, unc, lapm, Deriv.laplacian, cur. cbn [fst snd]. f_equal.
+        apply toM_c_ext_range; [assumption|]. intros i j Hi Hj. now rewrite (HX i j Hi Hj).
+    Qed.
+    Lemma vort_assembly_ext r a l : (a < R)%nat -> (l < L)%nat ->
+      vort_tendency_explicit Wi Wi (toM_c g) (curlc_c g) (clip_c g) c X (fun p => rt_dry c (X p)) (fun _ => 0) r (a, l)
+      = vort_tendency_explicit Wi Wi (toM_c g) (curlc_c g) (clip_c g) c X' (fun p => rt_dry c (X' p)) (fun _ => 0) r (a, l).
+    Proof.
+      intros Ha Hl. unfold vort_tendency_explicit. apply clip_c_ext_pt. f_equal. f_equal.
+      apply curlc_c_ext_range; try assumption; intros a' l' Ha' Hl';
+        (apply toM_c_ext_range; [assumption|]; intros i j Hi Hj; now rewrite (HX i j Hi Hj)).
+    Qed.
+    Lemma lnps_assembly_ext a l : (a < R)%nat -> (l < L)%nat ->
+      lnps_tendency_explicit_c g c X (a, l) = lnps_tendency_explicit_c g c X' (a, l).
+    Proof.
+      intros Ha Hl. unfold lnps_tendency_explicit_c. apply clip_c_ext_pt.
+      apply toM_c_ext_range; [assumption|]. intros i j Hi Hj. now rewrite (HX i j Hi Hj).
+    Qed.
+  End AssemblyExt.
+End Lift.
+
+Section SplitInvariance.
+  Context {F : Type} {o : Ops F} {Fc : FieldC o}.
+  Add Field FFps : (field_c : FieldTh o).
+  Hypothesis two_nz : two <> 0.
+  Hypothesis feqb_sound : forall x y : F, feqb x y = true -> x = y.
+  Variable g : @HGrid F.
+  Variable c : @PEcfg F.
+  Hypothesis th2_nz : forall k, (S k < cK c)%nat -> thickness (cb c) k + thickness (cb c) (S k) <> 0.
+  Variable grav : F.
+  Variable orog : nat -> nat -> F.
+  (** two states that share vorticity, divergence, lnps and tracers, with temperature variations temp1, temp2 *)
+  Variable s0 : @State F.
+  Variables temp1 temp2 : nat -> nat -> nat -> F.
+  Variables T1 T2 : nat -> F.
+  Variable v00 : F.
+
+  (** absolute temperature: modal (level k) and nodal *)
+  Definition Tm_abs (k : nat) (w : Wi) : F := temp1 k (fst w) (snd w) + T1 k * onem00 v00 w.
+  Definition T_abs (k : nat) (p : Wi) : F := if Nat.ltb k (cK c) then toN_c g (Tm_abs k) p else T1 k.
+
+  (** table hypothesis: the (0,0)-only spectrum with coefficient v00 is the constant one on the node range *)
+  Hypothesis H_one : forall i j, (i < hI g)%nat -> (j < hJ g)%nat -> to_nodal g (cur (onem00 v00)) i j = 1.
+
+  Lemma to_nodal3_guard (x : nat -> nat -> nat -> F) k i j :
+    (i < hI g)%nat -> (j < hJ g)%nat ->
+    to_nodal3 g (cK c) x k i j = lev_guard (cK c) (fun k => to_nodal g (x k) i j) k.
+  Proof.
+    intros Hi Hj. unfold to_nodal3, lev_guard. destruct (Nat.ltb_spec k (cK c)).
+    - rewrite memo3_ok by assumption. reflexivity.
+    - now apply memo3_out_k.
+  Qed.
+
+  Lemma node_eq (t : nat -> nat -> nat -> F) (Ti : nat -> F) :
+    (forall k a l, (k < cK c)%nat -> (a < hR g)%nat -> (l < hL g)%nat ->
+                   t k a l = Tm_abs k (a, l) - Ti k * onem00 v00 (a, l)) ->
+    (forall k, (cK c <= k)%nat -> T1 k = Ti k) ->
+    forall i j, (i < hI g)%nat -> (j < hJ g)%nat ->
+    X_of g (diagnostic_state g (cK c) (with_stemp s0 t)) (i, j) = Xs Wi (X_ideal g (cK c) s0) T_abs Ti (i, j).
+  Proof.
+    intros Hrel Hb i j Hi Hj.
+    apply ncol_ext;
+      cbv beta iota zeta delta [Xs with_temp X_of X_ideal diagnostic_state n_u n_v n_vort n_div n_temp n_gx n_gy n_sec2 n_f
+                                d_u d_v d_vort d_div d_temp d_gx d_gy with_stemp s_vort s_div s_temp s_lnps fst snd].
+    - intros k. now apply to_nodal3_guard.
+    - intros k. now apply to_nodal3_guard.
+    - intros k. now apply to_nodal3_guard.
+    - intros k. rewrite to_nodal3_guard by assumption. unfold lev_guard, dv_of.
+      destruct (Nat.ltb k (cK c)); [reflexivity|].
+      unfold toN_c, unc, to_nodal, cur. cbn [fst snd]. symmetry. apply synth_zero.
+    - intros k. rewrite to_nodal3_guard by assumption. unfold lev_guard, T_abs.
+      destruct (Nat.ltb_spec k (cK c)) as [Hk|Hk].
+      + unfold toN_c, unc, to_nodal, cur. cbn [fst snd].
+        rewrite (synth_ext (hR g) (hL g) (hJ g) (hf g) (hp g) (t k)
+                   (fun a l => (- Ti k) * onem00 v00 (a, l) + Tm_abs k (a, l)) i j Hj)
+          by (intros a l Ha Hl; rewrite (Hrel k a l Hk Ha Hl); ring).
+        rewrite (synth_linear (hR g) (hL g) (hJ g) (hf g) (hp g) (- Ti k) (fun a l => onem00 v00 (a, l))
+                   (fun a l => Tm_abs k (a, l)) i j Hj).
+        pose proof (H_one i j Hi Hj) as E1. unfold to_nodal, cur in E1. rewrite E1. ring.
+      + rewrite (Hb k Hk). ring.
+    - now apply sh_memo2_ok.
+    - now apply sh_memo2_ok.
+    - reflexivity.
+    - reflexivity.
+  Qed.
+
+  Let X := X_ideal g (cK c) s0.
+  Let dv := dv_of (cK c) s0.
+  Let lnps := unc (s_lnps s0).
+  (** the same absolute temperature, levelwise, on the coefficient range: a shift of the (0,0) coefficient *)
+  Hypothesis Htemp : forall k a l, (k < cK c)%nat -> (a < hR g)%nat -> (l < hL g)%nat ->
+      temp1 k a l + T1 k * onem00 v00 (a, l) = temp2 k a l + T2 k * onem00 v00 (a, l).
+  (** profiles are K-vectors: as index functions they agree beyond the K entries the code has *)
+  Hypothesis Hbeyond : forall k, (cK c <= k)%nat -> T1 k = T2 k.
+  (** exactness facts about the grid tables, on the (unmaterialised) nodal columns of the shared fields *)
+  Hypothesis H_roundtrip : forall s w, clip_c g (toM_c g (toN_c g (dv s))) w = dv s w.
+  Hypothesis H_div_vel : forall r w,
+      clip_c g (divc_c g (toM_c g (fun p => n_u (X p) r * n_sec2 (X p))) (toM_c g (fun p => n_v (X p) r * n_sec2 (X p)))) w
+      = clip_c g (toM_c g (fun p => n_div (X p) r)) w.
+  Hypothesis H_div_grad : forall w,
+      clip_c g (divc_c g (toM_c g (fun p => n_gx (X p) * n_sec2 (X p))) (toM_c g (fun p => n_gy (X p) * n_sec2 (X p)))) w
+      = lap_c g lnps w.
+  Hypothesis H_curl_grad : forall w,
+      clip_c g (curlc_c g (toM_c g (fun p => n_gx (X p) * n_sec2 (X p))) (toM_c g (fun p => n_gy (X p) * n_sec2 (X p)))) w = 0.
+
+  Let s1 := with_stemp s0 temp1.
+  Let s2 := with_stemp s0 temp2.
+
+  Lemma rel1 k a l : (k < cK c)%nat -> (a < hR g)%nat -> (l < hL g)%nat ->
+    temp1 k a l = Tm_abs k (a, l) - T1 k * onem00 v00 (a, l).
+  Proof. intros. unfold Tm_abs. cbn [fst snd]. ring. Qed.
+  Lemma rel2 k a l : (k < cK c)%nat -> (a < hR g)%nat -> (l < hL g)%nat ->
+    temp2 k a l = Tm_abs k (a, l) - T2 k * onem00 v00 (a, l).
+  Proof. intros Hk Ha Hl. unfold Tm_abs. cbn [fst snd]. rewrite (Htemp k a l Hk Ha Hl). ring. Qed.
+
+  (** the implicit halves in the shape of the modal theorems *)
+  Lemma temp_implicit_shape (ci : @PEcfg F) (t : nat -> nat -> nat -> F) k a l :
+    cK ci = cK c ->
+    s_temp (implicit_terms_full g ci (with_stemp s0 t)) k a l = temp_tendency_implicit Wi ci dv k (a, l).
+  Proof.
+    intros HK. cbn [implicit_terms_full s_temp with_stemp s_div].
+    unfold temp_tendency_implicit, temp_implicit_col, temp_implicit_dense. rewrite HK.
+    apply matvec_ext. intros h Hh. unfold dv, dv_of, unc. cbn [fst snd].
+    destruct (Nat.ltb_spec h (cK c)); [reflexivity|lia].
+  Qed.
+  Lemma div_implicit_shape (ci : @PEcfg F) (t : nat -> nat -> nat -> F) (Ti : nat -> F) k a l :
+    cK ci = cK c -> (a < hR g)%nat -> (l < hL g)%nat ->
+    (forall k a l, (k < cK c)%nat -> (a < hR g)%nat -> (l < hL g)%nat ->
+                   t k a l = Tm_abs k (a, l) - Ti k * onem00 v00 (a, l)) ->
+    s_div (implicit_terms_full g ci (with_stemp s0 t)) k a l
+    = div_tendency_implicit Wi (lap_c g) ci (Tms Wi Tm_abs (onem00 v00) Ti) lnps k (a, l).
+  Proof.
+    intros HK Ha Hl Hrel. cbn [implicit_terms_full s_div with_stemp s_temp s_lnps].
+    unfold div_tendency_implicit, lap_c, unc, cur, lapm, Deriv.laplacian, div_implicit_potential. cbn [fst snd].
+    f_equal. f_equal. f_equal.
+    unfold geo_diff, geo_diff_dense. rewrite HK. apply sumn_ext. intros k0 Hk0.
+    unfold Tms. now rewrite (Hrel k0 a l Hk0 Ha Hl).
+  Qed.
+
+  Theorem whole_state_split_invariance k a l :
+    (k < cK c)%nat -> (a < hR g)%nat -> (l < hL g)%nat ->
+    let c1 := with_tref c T1 in let c2 := with_tref c T2 in
+    let E1 := explicit_terms_full g c1 grav orog s1 in let I1 := implicit_terms_full g c1 s1 in
+    let E2 := explicit_terms_full g c2 grav orog s2 in let I2 := implicit_terms_full g c2 s2 in
+    s_vort E1 k a l + s_vort I1 k a l = s_vort E2 k a l + s_vort I2 k a l /\
+    s_div E1 k a l + s_div I1 k a l = s_div E2 k a l + s_div I2 k a l /\
+    s_temp E1 k a l + s_temp I1 k a l = s_temp E2 k a l + s_temp I2 k a l /\
+    s_lnps E1 a l + s_lnps I1 a l = s_lnps E2 a l + s_lnps I2 a l.
+  Proof.
+    intros Hk Ha Hl. cbv zeta.
+    destruct (explicit_terms_full_is_assembly g (with_tref c T1) grav orog s1 k a l Hk Ha Hl) as (Ev1 & Ed1 & Et1 & El1).
+    destruct (explicit_terms_full_is_assembly g (with_tref c T2) grav orog s2 k a l Hk Ha Hl) as (Ev2 & Ed2 & Et2 & El2).
+    cbv zeta in Ev1, Ed1, Et1, El1, Ev2, Ed2, Et2, El2.
+    change (cK (with_tref c T1)) with (cK c) in *. change (cK (with_tref c T2)) with (cK c) in *.
+    pose proof (node_eq temp1 T1 rel1 (fun k _ => eq_refl)) as N1.
+    pose proof (node_eq temp2 T2 rel2 Hbeyond) as N2.
+    fold s1 in N1. fold s2 in N2.
+    split; [|split; [|split]].
+    - rewrite Ev1, Ev2.
+      rewrite (vort_assembly_ext g (with_tref c T1) _ _ N1 k a l Ha Hl).
+      rewrite (vort_assembly_ext g (with_tref c T2) _ _ N2 k a l Ha Hl).
+      cbn [implicit_terms_full s_vort]. f_equal.
+      exact (vorticity_invariance_concrete g c X T_abs H_curl_grad T1 T2 k (a, l)).
+    - rewrite Ed1, Ed2.
+      rewrite (div_assembly_ext g (with_tref c T1) grav _ _ N1 (unc orog) k a l Ha Hl).
+      rewrite (div_assembly_ext g (with_tref c T2) grav _ _ N2 (unc orog) k a l Ha Hl).
+      unfold s1, s2.
+      rewrite (div_implicit_shape (with_tref c T1) temp1 T1 k a l eq_refl Ha Hl rel1).
+      rewrite (div_implicit_shape (with_tref c T2) temp2 T2 k a l eq_refl Ha Hl rel2).
+      exact (divergence_invariance_concrete g c grav X T_abs Tm_abs lnps (unc orog) v00 H_div_grad T1 T2 k (a, l)).
+    - rewrite Et1, Et2.
+      rewrite (temp_assembly_ext g (with_tref c T1) _ _ N1 k a l Ha Hl).
+      rewrite (temp_assembly_ext g (with_tref c T2) _ _ N2 k a l Ha Hl).
+      unfold s1, s2.
+      rewrite (temp_implicit_shape (with_tref c T1) temp1 k a l eq_refl).
+      rewrite (temp_implicit_shape (with_tref c T2) temp2 k a l eq_refl).
+      exact (temperature_invariance_concrete two_nz feqb_sound g c th2_nz X T_abs dv (fun p k0 => eq_refl) H_roundtrip H_div_vel T1 T2 k (a, l) Hk).
+    - rewrite El1, El2.
+      rewrite (lnps_assembly_ext g (with_tref c T1) _ _ N1 a l Ha Hl).
+      rewrite (lnps_assembly_ext g (with_tref c T2) _ _ N2 a l Ha Hl).
+      reflexivity.
+  Qed.
+End SplitInvariance.
